@@ -405,4 +405,37 @@ CLAIMS = {
                 "'executable line' = line goal of the module without exclusions. scope_line_range and nodes_of_class are "
                 "abstracted by uninterpreted LO/HI/DEFS.",
     },
+    "C01": {
+        "category": "other",
+        "text": "Bounded stand-in (not a proof), harness H-prog: a module of 28 functions (every comparison kind, None tests, "
+                "truthiness, boolean operators, chained comparisons, loops with break/continue/else, try/except/else/finally, "
+                "comprehensions, str.startswith/endswith/isX, subscripts, generators, with, match, conditional expressions, "
+                "lambda, assert, printing, argument mutation) x ~430 argument vectors (ints beyond 2**53 and 1e308, NaN, +-inf, "
+                "-0.0, Decimal incl. sNaN and overflowing differences, Fraction, complex, str/bytes, containers, one-shot "
+                "iterators, objects with partial or side-effecting comparison protocols): the call of the module instrumented "
+                "through the real import hook (dynamic seeding on) under {BRANCH}, {LINE}, {BRANCH, LINE} must return / raise / "
+                "print / mutate its arguments exactly like the uninstrumented call.",
+        "technique": "bounded differential contract check (the uninstrumented run is the oracle)",
+        "note": "no unbounded claim: the statement quantifies over all programs and needs a semantics of CPython bytecode execution; the stack-machine lemma on the injected instruction sequences planned in DESIGN.md is not built. CHECKED coverage is not run (a seeding agent reported interpreter crashes under it on the unchanged tree - not investigated); Python 3.12 bytecode only; outcomes and lines are compared per source line, not per bytecode offset. Known findings (recorded per function): the tracer re-evaluates user comparison/truth operators (side effects "
+                "run again), consumes one-shot iterators in membership tests, and the seeding instrumentation of startswith/"
+                "endswith raises TypeError for tuple prefixes.",
+    },
+    "C02": {
+        "category": "other",
+        "text": "Bounded stand-in (not a proof), harness H-prog (see C01): the interpreter's own LINE events (sys.monitoring) of the "
+                "uninstrumented call against the line ids the real tracer reports for the instrumented call (translated by "
+                "lineids_to_linenos, import-time lines removed on both sides) under {LINE} and {BRANCH, LINE}; every executed line "
+                "must be a registered line and the reported set must equal the executed registered set.",
+        "technique": "bounded differential contract check (sys.monitoring LINE events are the oracle)",
+        "note": "no unbounded claim: the statement quantifies over all programs and needs a semantics of CPython bytecode execution; the stack-machine lemma on the injected instruction sequences planned in DESIGN.md is not built. CHECKED coverage is not run (a seeding agent reported interpreter crashes under it on the unchanged tree - not investigated); Python 3.12 bytecode only; outcomes and lines are compared per source line, not per bytecode offset. Known findings: only consequences of the two C01 behaviour changes.",
+    },
+    "C03": {
+        "category": "other",
+        "text": "Bounded stand-in (not a proof), harness H-prog (see C01): the interpreter's own BRANCH events (sys.monitoring; "
+                "POP_JUMP_IF_*, FOR_ITER mapped to (line, outcome)) of the uninstrumented call against the (predicate, outcome) "
+                "pairs the real tracer reports with distance 0 for the instrumented call, under {BRANCH} and {BRANCH, LINE}.",
+        "technique": "bounded differential contract check (sys.monitoring BRANCH events are the oracle)",
+        "note": "no unbounded claim: the statement quantifies over all programs and needs a semantics of CPython bytecode execution; the stack-machine lemma on the injected instruction sequences planned in DESIGN.md is not built. CHECKED coverage is not run (a seeding agent reported interpreter crashes under it on the unchanged tree - not investigated); Python 3.12 bytecode only; outcomes and lines are compared per source line, not per bytecode offset. Known findings: a membership test that raises TypeError ('1 in 5') is recorded as the False outcome (pinned by "
+                "the repository's tests); one consequence of the C01 iterator finding.",
+    },
 }
